@@ -14,5 +14,6 @@ CONSTANTS
   MaxOld = 0
   Transports <- TrIP
   ScmpTypes <- ScmpNone
+  HdrStates <- HdrSync
 VIEW view
 INVARIANTS ReqFits
